@@ -12,6 +12,7 @@ import (
 	"math"
 	"reflect"
 	"runtime"
+	"strings"
 	"unsafe"
 
 	"github.com/philpearl/avro"
@@ -211,17 +212,51 @@ func genMAL(c *ctx) {
 			c.emit(T("mal-skip", ty, schemaSx(sch), H([]byte{1, 2, 3, 4, 5, 6, 7, 8, 9, 10}), T("tag", A("negative-fixed-size"))))
 		}
 	}
+	// one wrapper field followed by a plain long: a malformed varint in the wrapper's position must fail the decode even though
+	// everything after it is well formed (a wrapper decoder that drops the inner decoder's error would carry on)
+	for _, wk := range []struct {
+		avro string
+		tgt  sx
+	}{{"long", T("nullT", A("int"))}, {"int", T("nullT", A("int"))}, {"long", A("time")}, {"long", tInt(16)}, {"long", tInt(32)}, {"long", tInt(64)}} {
+		sch := sRecord("w", avro.SchemaRecordField{Name: "n", Type: sPrim(wk.avro)}, avro.SchemaRecordField{Name: "tail", Type: sPrim("long")})
+		ty := T("struct", hs("W"), hs(""), T("field", hs("N"), A("true"), hs("n"), hs(""), wk.tgt), T("field", hs("Tail"), A("true"), hs("tail"), hs(""), tInt(64)))
+		for _, nv := range nastyVarints {
+			data := append(append([]byte(nil), nv...), refVarint(7)...)
+			c.emit(T("mal-read", ty, schemaSx(sch), H(data), T("tag", A("wrapper-varint"))))
+			c.emit(T("mal-skip", ty, schemaSx(sch), H(data), T("tag", A("wrapper-varint"))))
+		}
+	}
 	bigBudget := c.scale(12, 200) // counts of 2^21: tens of megabytes each
 	fatalBudget := c.scale(0, 6)  // huge declared counts are fatal (out of memory) or loop for hours: only a few per run, isolated by ./check
 	n := c.scale(60, 2000)
-	for i := 0; i < n; i++ {
-		w := &wgen{rng: c.rng, maxDepth: 1 + c.rng.Intn(3), withTime: c.rng.Intn(3) == 0, nullLeaves: true}
+	// every kind of leaf target must occur (the null.* wrappers and time.Time have decoders of their own, each with its own
+	// error path): schemas are drawn beyond n until all of them have been seen
+	leafKinds := []string{"(nullT int)", "(nullT bool)", "(nullT double)", "(nullT string)", "(nullT time)", " time)", "(int 16)", "(int 32)", " f32)", "(array "}
+	seenLeaf := map[string]bool{}
+	for i := 0; i < n || (i < n+600 && len(seenLeaf) < len(leafKinds)); i++ {
+		w := &wgen{rng: c.rng, maxDepth: 1 + c.rng.Intn(3), withTime: c.rng.Intn(3) == 0 || i >= n, nullLeaves: true}
 		s := w.record(0)
 		v := w.value(s)
 		p := w.plan(s, v, c.rng.Intn(3) == 0)
 		bs, rec := encodeSpecRec(p, s, v)
 		tg := &tgen{wgen: w, project: c.rng.Intn(2) == 0}
 		ty := tg.structFor(s)
+		{
+			tys, contributes := ty.String(), false
+			for _, k := range leafKinds {
+				if !seenLeaf[k] && strings.Contains(tys, k) {
+					contributes = true
+				}
+			}
+			if i >= n && !contributes {
+				continue
+			}
+			for _, k := range leafKinds {
+				if strings.Contains(tys, k) {
+					seenLeaf[k] = true
+				}
+			}
+		}
 		sch := schemaSx(s.toSchema())
 		emit := func(data []byte, tag string) {
 			c.emit(T("mal-read", ty, sch, H(data), T("tag", A(tag))))
